@@ -484,6 +484,35 @@ Section Frame.
     apply safe_lift, ns_set_safe; auto.
   Qed.
 
+  (* ---- assignment through a dotted key into a container of the fresh region *)
+  Lemma set_item_safe v k y : refs_ge n v = true -> refs_ge n y = true -> hsafe (set_item v k y) (fun _ => True).
+  Proof.
+    intros Hv Hy. destruct v; simpl; try apply hsafe_fail.
+    eapply hsafe_bind; [apply hsafe_read_fresh; exact Hv|]. intros c Hc.
+    simpl in Hv. apply Nat.leb_le in Hv.
+    destruct c; simpl in Hc; [apply hsafe_fail | |];
+      (apply hsafe_write; [exact Hv | simpl; apply forallb_aset; auto]).
+  Qed.
+
+  Lemma cell_kvs_fresh c : forallb (refs_ge n) (cell_vals c) = true -> forallb (refs_ge n) (map snd (cell_kvs c)) = true.
+  Proof. destruct c; simpl; auto. Qed.
+
+  Lemma set_path_safe fuel : forall v k y, refs_ge n v = true -> refs_ge n y = true -> hsafe (set_path fuel v k y) (fun _ => True).
+  Proof.
+    induction fuel as [|f IH]; intros v k y Hv Hy; simpl; [apply hsafe_fuel|].
+    destruct (split_dot k) as [[a rest]|]; [|apply set_item_safe; auto].
+    eapply hsafe_bind; [apply hsafe_read_fresh; exact Hv|]. intros c Hc.
+    destruct (is_map_cell c); simpl; [|apply hsafe_fail].
+    assert (Hnew : hsafe (n0 <- halloc (empty_like c) ;; set_item v a n0 ;;; set_path f n0 rest y) (fun _ => True)).
+    { eapply hsafe_bind; [apply hsafe_alloc; destruct c; reflexivity|]. intros n0 Hn0.
+      eapply hsafe_bind; [apply set_item_safe; auto|]. intros _ _. apply IH; auto. }
+    destruct (aget a (cell_kvs c)) as [x|] eqn:E; [|exact Hnew].
+    pose proof (aget_forallb _ _ _ _ (cell_kvs_fresh c Hc) E) as Hx.
+    destruct x; try exact Hnew.
+    eapply hsafe_bind; [apply hsafe_read_fresh; exact Hx|]. intros c' Hc'.
+    destruct (is_map_cell c'); [apply IH; auto | exact Hnew].
+  Qed.
+
   (* the declared defaults are values the callee may meet *)
   Definition okp (p : parser) : Prop := Forall (fun d => okv (d_dflt d)) p.
   Lemma okp_flat p : parser_flat n p = true -> okp p.
@@ -497,15 +526,12 @@ Section Frame.
   Lemma get_defaults_safe p : okp p -> safe (get_defaults fx p) fresh.
   Proof.
     intro Hp. unfold get_defaults.
+    eapply safe_bind; [apply safe_lift, hsafe_alloc; reflexivity|]. intros cfg Hcfg.
     eapply safe_bind.
-    - apply safe_lift.
-      apply (hsafe_hmap _ (fun d => okv (d_dflt d)) (fun kv : str * val => refs_ge n (snd kv) = true)).
-      + intros d Hd. eapply hsafe_bind; [apply clone_safe; exact Hd|]. intros y Hy. apply hsafe_ret. exact Hy.
-      + exact Hp.
-    - intros kvs Hk. eapply safe_bind.
-      + apply safe_lift, hsafe_alloc. simpl. apply Forall_refs_forallb. rewrite Forall_map. exact Hk.
-      + intros cfg Hcfg. eapply safe_bind; [apply safe_bracket, apply_actions_safe; exact Hcfg|].
-        intros _ _. apply safe_ret. exact Hcfg.
+    - apply safe_lift. apply (hsafe_hiter _ (fun d => okv (d_dflt d))); [|exact Hp].
+      intros d Hd. eapply hsafe_bind; [apply clone_safe; exact Hd|]. intros y Hy. apply set_path_safe; auto.
+    - intros _ _. eapply safe_bind; [apply safe_bracket, apply_actions_safe; exact Hcfg|].
+      intros _ _. apply safe_ret. exact Hcfg.
   Qed.
 
   Lemma merge_safe a b : okv a -> okv b -> safe (merge_config fx a b) fresh.
